@@ -40,7 +40,8 @@ Hypothesis Q_assert : forall s a, Q s (Assertion a).
 Hypothesis Q_lit : forall s ix b ci, byte re ix = Some b -> (length re <? ix + cp_len b) = false ->
   Q s (Literal (sub re ix (ix + cp_len b)) ci).
 Hypothesis G_concat : forall s l, Forall (Q s) l -> Q s (Concat l).
-Hypothesis G_alt : forall s l, Forall (Q s) l -> Q s (Alt l).
+Hypothesis G_alt : forall s l, 2 <= length l -> Forall (Q s) l -> Q s (Alt l).
+Hypothesis G_alt1 : forall s l, length l < 2 -> Q s (Alt l) -> Q s (Alt []).
 Hypothesis G_alt_inv : forall s l, Q s (Alt l) -> Forall (Q s) l.
 Hypothesis G_repeat : forall s c lo hi gr, Q s c -> Q s (Repeat c lo hi gr).
 Hypothesis G_atomic : forall s c, Q s c -> Q s (AtomicGroup c).
@@ -71,7 +72,8 @@ Proof. intros H [H1 H2]. split; auto. eapply ext_trans; eauto. Qed.
 
 
 Definition S_re f := forall st ix d r, parse_re re f st ix d = POk r -> OK3 st r.
-Definition S_alt f := forall st ix d ch r, alt_loop re f st ix d ch = POk r -> Forall (Q st) ch -> OK3 st r.
+Definition S_alt f := forall st ix d ch r, alt_loop re f st ix d ch = POk r -> Forall (Q st) ch ->
+  1 <= length ch -> (byte_is re ix 124 = true \/ 2 <= length ch) -> OK3 st r.
 Definition S_branch f := forall st ix d ch r, parse_branch re f st ix d ch = POk r -> Forall (Q st) ch -> OK3 st r.
 Definition S_piece f := forall st ix d r, parse_piece re f st ix d = POk r -> OK3 st r.
 Definition S_atom f := forall st ix d r, parse_atom re f st ix d = POk r -> OK3 st r.
@@ -135,18 +137,20 @@ Lemma step_re : S_re (S f).
 Proof.
   intros st ix d r H. simpl parse_re in H.
   pb H E. destruct a as [[ix1 child] st1]. destruct (I_branch _ _ _ _ _ E (Forall_nil _)) as [He Hg]. cbn [fst snd] in *.
-  pb H E2. destruct (byte_is re a 124).
-  - eapply OK3_trans; [exact He|]. eapply I_alt; eauto.
+  pb H E2. destruct (byte_is re a 124) eqn:E124.
+  - eapply OK3_trans; [exact He|]. eapply I_alt; eauto; cbn; lia.
   - destruct (_ && _); [discriminate|]. inv H. split; auto.
 Qed.
 
 Lemma step_alt : S_alt (S f).
 Proof.
-  intros st ix d ch r H Hch. simpl alt_loop in H. destruct (byte_is re ix 124).
+  intros st ix d ch r H Hch Hl1 Hside. simpl alt_loop in H. destruct (byte_is re ix 124).
   - pb H E. destruct a as [[nx child] st1]. destruct (I_branch _ _ _ _ _ E (Forall_nil _)) as [He Hg]. cbn [fst snd] in *.
     pb H E2. eapply OK3_trans; [exact He|]. eapply I_alt; eauto.
-    apply Forall_app. split; [eapply Forall_G_mono; eauto|constructor; auto].
-  - inv H. split; [apply ext_refl|]. cbn [fst snd]. now apply G_alt.
+    + apply Forall_app. split; [eapply Forall_G_mono; eauto|constructor; auto].
+    + rewrite app_length. cbn. lia.
+    + right. rewrite app_length. cbn. lia.
+  - inv H. split; [apply ext_refl|]. cbn [fst snd]. destruct Hside as [Hs|Hs]; [discriminate|]. now apply G_alt.
 Qed.
 
 Lemma finish_G (st : pst) ch : Forall (Q st) ch ->
@@ -282,12 +286,12 @@ Proof.
       destruct a; auto; destruct b0; auto. }
     destruct child;
       try (match type of Hg2 with Q _ ?c => apply (Hpair c Empty H Hg2); apply Q_empty end; fail).
-    apply G_alt_inv in Hg2.
+    pose proof Hg2 as HgA. apply G_alt_inv in Hg2.
     destruct es as [|a [|b2 [|c3 rest]]].
-    + apply (Hpair (Alt []) Empty H); [now apply G_alt|apply Q_empty].
-    + inversion Hg2; subst. apply (Hpair a (Alt []) H); [auto|now apply G_alt].
+    + apply (Hpair (Alt []) Empty H); [exact HgA|apply Q_empty].
+    + inversion Hg2; subst. apply (Hpair a (Alt []) H); [auto|apply (G_alt1 st2 [a]); [cbn; lia|exact HgA]].
     + inversion Hg2 as [|? ? Ga Hr2]; subst. inversion Hr2; subst. apply (Hpair a b2 H); auto.
-    + inversion Hg2 as [|? ? Ga Hr2]; subst. apply (Hpair a (Alt (b2 :: c3 :: rest)) H); [auto|now apply G_alt].
+    + inversion Hg2 as [|? ? Ga Hr2]; subst. apply (Hpair a (Alt (b2 :: c3 :: rest)) H); [auto|apply G_alt; [cbn; lia|auto]].
 Qed.
 End Step.
 
@@ -436,14 +440,15 @@ Theorem parse_tree_ok e st : parse re = POk (e, st) ->
 Proof.
   intros Hp.
   assert (HG : QG st e).
-  { refine (parse_Q re QG _ _ _ _ _ _ _ _ _ _ _ _ _ _ _ _ _ _ e st Hp); unfold QG.
+  { refine (parse_Q re QG _ _ _ _ _ _ _ _ _ _ _ _ _ _ _ _ _ _ _ e st Hp); unfold QG.
     - intros s s' x. apply G_mono.
     - intros s. now apply G_leaf.
     - intros s b. now apply G_leaf.
     - intros s a. now apply G_leaf.
     - intros s ix b ci _ _. now apply G_leaf.
     - intros s l. apply G_concat.
-    - intros s l. apply G_alt.
+    - intros s l _. apply G_alt.
+    - intros s l _ _. apply G_alt. constructor.
     - intros s l. apply G_alt_inv.
     - intros s c lo hi gr (H1 & H2 & H3). split; [|split]; auto.
     - intros s c (H1 & H2 & H3). split; [|split]; auto.
@@ -585,7 +590,7 @@ Proof. induction l; cbn; intros H; constructor; tauto. Qed.
 Theorem parse_wfe_ascii e st : parse re = POk (e, st) -> wfe e.
 Proof.
   intros Hp.
-  refine (parse_Q re (fun _ x => wfe x) _ _ _ _ _ _ _ _ _ _ _ _ _ _ _ _ _ _ e st Hp).
+  refine (parse_Q re (fun _ x => wfe x) _ _ _ _ _ _ _ _ _ _ _ _ _ _ _ _ _ _ _ e st Hp).
   - auto.
   - intros; exact I.
   - intros; exact I.
@@ -593,7 +598,8 @@ Proof.
   - intros s ix b ci Hb _. cbn [wfe]. pose proof (byte_ascii _ _ Hb) as Hlt. rewrite (cp_len_ascii b Hlt), (sub_one _ _ Hb).
     now apply wf_char_ascii.
   - intros s l H. rewrite wfe_concat. now apply wfe_of_list.
-  - intros s l H. rewrite wfe_alt. now apply wfe_of_list.
+  - intros s l _ H. rewrite wfe_alt. now apply wfe_of_list.
+  - intros; exact I.
   - intros s l H. rewrite wfe_alt in H. now apply wfe_to_list.
   - intros; assumption.
   - intros; assumption.
@@ -619,3 +625,128 @@ Proof.
     all: inv H; reflexivity.
 Qed.
 End InstW.
+
+(* ====== instance 3: every alternation the parser builds has at least two alternatives, so the
+   analysis never reaches its panic on an empty alternation ====== *)
+Fixpoint alt2 (e : expr) : Prop :=
+  match e with
+  | Alt es => 2 <= length es /\ (fix go (l : list expr) : Prop := match l with [] => True | x :: r => alt2 x /\ go r end) es
+  | Concat es => (fix go (l : list expr) : Prop := match l with [] => True | x :: r => alt2 x /\ go r end) es
+  | Group c | LookAround c _ | Repeat c _ _ _ | AtomicGroup c => alt2 c
+  | Conditional c y n => alt2 c /\ alt2 y /\ alt2 n
+  | _ => True
+  end.
+Fixpoint alt2_list (l : list expr) : Prop := match l with [] => True | x :: r => alt2 x /\ alt2_list r end.
+Lemma alt2_concat es : alt2 (Concat es) = alt2_list es. Proof. induction es; simpl in *; congruence. Qed.
+Lemma alt2_alt es : alt2 (Alt es) = (2 <= length es /\ alt2_list es).
+Proof. reflexivity. Qed.
+Lemma alt2_of_list l : Forall alt2 l -> alt2_list l. Proof. induction 1; cbn; auto. Qed.
+Lemma alt2_to_list l : alt2_list l -> Forall alt2 l. Proof. induction l; cbn; intros H; constructor; tauto. Qed.
+
+Section InstA.
+Variable re : list nat.
+Ltac inv H := inversion H; subst; clear H.
+
+Lemma parse_escape_alt2 st ix ic r : parse_escape re st ix ic = POk r -> alt2 (snd (fst r)).
+Proof.
+  intros H. unfold parse_escape in H. destruct (byte re (ix + 1)) as [b|] eqn:Eb; [|discriminate].
+  cbv zeta in H.
+  repeat match type of H with
+  | (if ?c then _ else _) = POk _ => destruct c
+  | (match ?c with _ => _ end) = POk _ => destruct c eqn:?
+  | pbind ?m _ = POk _ => destruct m eqn:?; cbn [pbind] in H
+  end; try discriminate;
+  try (inv H; exact I);
+  try (unfold parse_named_backref in H; repeat match type of H with
+        | (if ?c then _ else _) = POk _ => destruct c
+        | (match ?c with _ => _ end) = POk _ => destruct c
+        end; try discriminate; inv H; exact I);
+  try (unfold parse_numbered_backref in H; repeat match type of H with
+        | (if ?c then _ else _) = POk _ => destruct c
+        | (match ?c with _ => _ end) = POk _ => destruct c
+        end; try discriminate; inv H; exact I).
+  all: inv H; cbn [fst snd]; match goal with E : parse_hex _ _ _ _ = POk ?p |- _ =>
+         unfold parse_hex in E; repeat match type of E with
+         | (if ?c then _ else _) = POk _ => destruct c
+         | pbind ?m _ = POk _ => destruct m eqn:?; cbn [pbind] in E
+         | (let _ := _ in _) = POk _ => cbv zeta in E
+         end; try discriminate; inv E; exact I end.
+Qed.
+
+Theorem parse_alt2 e st : parse re = POk (e, st) -> alt2 e.
+Proof.
+  intros Hp.
+  refine (parse_Q re (fun _ x => alt2 x) _ _ _ _ _ _ _ _ _ _ _ _ _ _ _ _ _ _ _ e st Hp).
+  - auto.
+  - intros; exact I.
+  - intros; exact I.
+  - intros; exact I.
+  - intros; exact I.
+  - intros s l H. rewrite alt2_concat. now apply alt2_of_list.
+  - intros s l Hl H. rewrite alt2_alt. split; [exact Hl|now apply alt2_of_list].
+  - intros s l Hl H. rewrite alt2_alt in H. lia.
+  - intros s l H. rewrite alt2_alt in H. now apply alt2_to_list.
+  - intros; assumption.
+  - intros; assumption.
+  - intros; assumption.
+  - intros; assumption.
+  - intros; exact I.
+  - intros s c y n H1 H2 H3. cbn [alt2]. auto.
+  - intros st0 ix o c ar mk r Hmk H. split; [apply (named_backref_G re st0 ix o c ar mk r Hmk H)|].
+    unfold parse_named_backref in H. repeat match type of H with
+        | (if ?c then _ else _) = POk _ => destruct c
+        | (match ?c with _ => _ end) = POk _ => destruct c
+        end; try discriminate. inv H. cbn [fst snd]. destruct Hmk as [E|E]; rewrite E; exact I.
+  - intros st0 ix mk r Hmk H. split; [apply (numbered_backref_G re st0 ix mk r Hmk H)|].
+    unfold parse_numbered_backref in H. repeat match type of H with
+        | (if ?c then _ else _) = POk _ => destruct c
+        | (match ?c with _ => _ end) = POk _ => destruct c
+        end; try discriminate. inv H. cbn [fst snd]. destruct Hmk as [E|E]; rewrite E; exact I.
+  - intros st0 ix ic r H. split; [apply (parse_escape_G re st0 ix ic r H)|now apply (parse_escape_alt2 st0 ix ic r)].
+  - intros st0 ix r H. split; [apply (parse_class_G re st0 ix r H)|].
+    unfold parse_class in H. destruct (byte_is re (ix + 1) 94); cbv zeta beta iota in H.
+    all: match type of H with context[if ?c then _ else _] => destruct c end; cbv beta iota in H.
+    all: match type of H with pbind ?m _ = _ => destruct m as [[[e0 cls] st']| | | |] eqn:E end; try discriminate; cbn [pbind] in H.
+    all: inv H; exact I.
+Qed.
+End InstA.
+
+Lemma acheck_list_ne l : Forall (fun x => forall g, acheck g x <> Some APanicEmptyAlt) l -> forall g,
+  (fix go (g : nat) (l : list expr) : option aerr :=
+     match l with
+     | [] => None
+     | x :: r => match acheck g x with Some er => Some er | None => go (g + ngroups x) r end
+     end) g l <> Some APanicEmptyAlt.
+Proof.
+  induction 1 as [|x r Hx Hr IH]; intros g; [discriminate|].
+  destruct (acheck g x) eqn:E; [intros Hc; inversion Hc; subst; eapply Hx; eauto|apply IH].
+Qed.
+
+Lemma acheck_alt_cons g x r : acheck g (Alt (x :: r)) =
+  (fix go (g : nat) (l : list expr) : option aerr :=
+     match l with
+     | [] => None
+     | x :: r => match acheck g x with Some er => Some er | None => go (g + ngroups x) r end
+     end) g (x :: r).
+Proof. reflexivity. Qed.
+
+Lemma acheck_no_empty_alt : forall e, alt2 e -> forall g, acheck g e <> Some APanicEmptyAlt.
+Proof.
+  induction e using expr_ind'; intros Ha g0; try (cbn; discriminate).
+  - rewrite alt2_concat in Ha. apply alt2_to_list in Ha.
+    assert (HF : Forall (fun x => forall g, acheck g x <> Some APanicEmptyAlt) es) by (rewrite Forall_forall in *; intros x Hx; apply H; auto).
+    exact (acheck_list_ne es HF g0).
+  - rewrite alt2_alt in Ha. destruct Ha as [Hl Ha]. destruct es as [|e0 es]; [cbn in Hl; lia|].
+    apply alt2_to_list in Ha.
+    assert (HF : Forall (fun x => forall g, acheck g x <> Some APanicEmptyAlt) (e0 :: es)) by (rewrite Forall_forall in *; intros x Hx; apply H; auto).
+    exact (acheck_list_ne (e0 :: es) HF g0).
+  - cbn [alt2 acheck] in *. auto.
+  - cbn [alt2 acheck] in *. auto.
+  - cbn [alt2 acheck] in *. auto.
+  - cbn [acheck]. destruct (N.ltb _ _); discriminate.
+  - cbn [alt2 acheck] in *. auto.
+  - cbn [acheck]. destruct (N.ltb _ _); discriminate.
+  - cbn [alt2 acheck] in *. destruct Ha as (A1 & A2 & A3).
+    destruct (acheck g0 e1) eqn:E1; [intros Hc; inversion Hc; subst; eapply IHe1; eauto|].
+    destruct (acheck (g0 + ngroups e1) e2) eqn:E2; [intros Hc; inversion Hc; subst; eapply IHe2; eauto|]. apply IHe3; auto.
+Qed.
